@@ -13,7 +13,7 @@ ATOMIC.timer-post : (open finding, shared with C11) one post of a cancelled sour
 import ast
 
 from sa.model import AnalysisError, walk_shallow, dotted, norm
-from sa.util import cfg_of, shallow_calls, signal_const, local_defs, resolve_name
+from sa.util import cfg_of, shallow_calls, signal_const, local_defs, resolve_name, expand_locals, strip_not
 from sa.context import callgraph, effects
 from sa import queues
 from props.c11 import timer_runner
@@ -129,11 +129,13 @@ def check(run, model, tier):
     h = heads[0]
     ok = 'is_set' in norm(h.ast) and isinstance(h.ast, ast.Call)
     run.inst('CONSUMER.exit', re_, 'thread loop guard re-reads the run flag', ok, 'loop guard is %s' % norm(h.ast), node=h.ast, obligation=True)
-    stops = [t for t in gr.nodes if t.kind == 'test' and any(signal_const(x) == 'STOP_ACTIVE_OBJECT_SIGNAL' for x in ast.walk(t.ast))]
+    xt = {t: expand_locals(t.ast, re_.node, params=re_.params) for t in gr.nodes if t.kind == 'test'}
+    stops = [t for t in gr.nodes if t.kind == 'test' and any(signal_const(x) == 'STOP_ACTIVE_OBJECT_SIGNAL' for x in ast.walk(xt[t]))]
     if len(stops) != 1:
         raise AnalysisError('run_event: stop-signal test not found')
     st = stops[0]
-    neq = isinstance(st.ast, ast.Compare) and isinstance(st.ast.ops[0], (ast.NotEq, ast.IsNot))
+    sta, stpol = strip_not(xt[st])
+    neq = (isinstance(sta, ast.Compare) and isinstance(sta.ops[0], (ast.NotEq, ast.IsNot))) == stpol
     stop_label = 'false' if neq else 'true'
     succ = [m for m, l in gr.succ[st] if l == stop_label]
     flagp = norm(h.ast.func.value) if isinstance(h.ast, ast.Call) and isinstance(h.ast.func, ast.Attribute) else None
@@ -146,7 +148,8 @@ def check(run, model, tier):
     run.inst('CONSUMER.exit', re_, 'the stop item clears the run flag and is not dispatched', ok,
              '' if ok else 'on the stop item the thread clears its flag %s times and steps %s times' % (cc, sc), node=st.ast, obligation=True)
     # the stop item is compared on the head of the queue the consumer pops from
-    ok = '[0]' in norm(st.ast) and queues.consumer_end(model) == 'left'
+    st_txt = norm(expand_locals(st.ast, re_.node))
+    ok = '[0]' in st_txt and queues.consumer_end(model) == 'left'
     run.inst('CONSUMER.exit', re_, 'the stop test looks at the element next_rtc would pop', ok, 'stop test inspects %s' % norm(st.ast), node=st.ast, obligation=True)
     # ---- SCOPE
     fx = effects(model)
